@@ -23,8 +23,10 @@ def _fes(cfg):
 def r1_step_wrappers(ctx, cfg='A'):
     ctx.set_rule('C10.R1', cfg)
     P = ctx.progs[cfg]
-    from .dispatch import counter_field
+    from .dispatch import counter_field, limit_fields
     CNT = counter_field(ctx, cfg)
+    LBASE, LOVR = limit_fields(ctx, cfg)
+    LF = LOVR or LBASE or 'limit'     # the field a step installs its temporary limit in
     for m, var in (('dispatch_n_events', 'EventCount'), ('dispatch_events_until', 'SimTime')):
         f = P.fns.get(RT + '::' + m)
         if not f:
@@ -40,9 +42,9 @@ def r1_step_wrappers(ctx, cfg='A'):
             for e in effs:
                 if e[0] == 'c' and e[1].name == 'std::mem::swap':
                     a0, a1 = peel(e[2][0]), peel(e[2][1])
-                    if (a0[0] == 'field' and a0[2] == 'limit') or (a1[0] == 'field' and a1[2] == 'limit'):
+                    if (a0[0] == 'field' and a0[2] == LF) or (a1[0] == 'field' and a1[2] == LF):
                         seq.append(('swap', e))
-                elif e[0] == 'c' and e[1].name == 'std::mem::replace' and peel(e[2][0])[0] == 'field' and peel(e[2][0])[2] == 'limit':
+                elif e[0] == 'c' and e[1].name in ('std::mem::replace', 'std::option::Option::replace') and peel(e[2][0])[0] == 'field' and peel(e[2][0])[2] == LF:
                     seq.append(('swap', e))
                 elif e[0] == 'c' and e[1].name == RT + '::dispatch_all':
                     seq.append(('run', e))
@@ -50,7 +52,7 @@ def r1_step_wrappers(ctx, cfg='A'):
                     # dispatch_all inlined: `while !self.dispatch_event() {}` — one 'run' per loop, however often the path iterates
                     if not (seq and seq[-1][0] == 'run' and seq[-1][1][1].b == e[1].b):
                         seq.append(('run', e))
-                elif e[0] == 'w' and e[2] == 'limit':
+                elif e[0] == 'w' and e[2] == LF:
                     seq.append(('restore', e))
             kinds = [k for k, _ in seq]
             ok = kinds == ['swap', 'run', 'restore']
@@ -58,8 +60,10 @@ def r1_step_wrappers(ctx, cfg='A'):
             if ok:
                 # the installed limit
                 sw = seq[0][1]
-                new = [peel(a) for a in sw[2] if not (peel(a)[0] == 'field' and peel(a)[2] == 'limit')]
+                new = [peel(a) for a in sw[2] if not (peel(a)[0] == 'field' and peel(a)[2] == LF)]
                 lim = new[0] if new else None
+                if lim is not None and lim[0] == 'agg' and str(lim[1]).endswith('Option::Some') and lim[2]:
+                    lim = peel(lim[2][0])     # mem::replace(&mut self.<override>, Some(limit))
                 good = lim is not None and lim[0] == 'agg' and lim[1].endswith('RuntimeLimit::' + var)
                 if good and var == 'EventCount':
                     v = peel(lim[2][0])
